@@ -443,12 +443,51 @@ func uploader(ctx context.Context, indexStore storage.Store, indexTime time.Time
 			)
 		}
 
+		// the index is now made of chunks 1..chunkIndex: drop the chunks left by a previous, larger index
+		if err := dropIndexChunksAbove(ctx, indexStore, chunkIndex); err != nil {
+			logger.Error("failed to remove chunks from a former index", zap.Error(err))
+
+			return err
+		}
+
 		logger.Info("upload index completed",
 			zap.Uint64("num_chunks", chunkIndex),
 			zap.Uint64("uploaded_keys", atomic.LoadUint64(uploadKeysPtr)),
 		)
 
 		return nil
+	}
+}
+
+// dropIndexChunksAbove removes the index chunk files numbered after the last chunk.
+//
+// Rebuilding the index overwrites its chunks one by one: whenever the new index has fewer chunks than the
+// previous one, the extra chunks would otherwise remain, with outdated keys and an outdated index time.
+func dropIndexChunksAbove(ctx context.Context, indexStore storage.Store, last uint64) error {
+	var next string
+	for {
+		ks, token, err := indexStore.KeysPrefix(ctx, next, model.ReverseIndexPrefix(), "", 1024)
+		if err != nil {
+			return fmt.Errorf("iterating index chunks in metadata [%s]: %w", next, err)
+		}
+
+		for _, chunk := range ks {
+			index, erp := model.ReverseIndexChunk(chunk)
+			if erp != nil {
+				return fmt.Errorf("invalid index chunk file [%s]: %w", chunk, erp)
+			}
+			if index <= last {
+				continue
+			}
+			if err = indexStore.Delete(ctx, chunk); err != nil && !errors.Is(err, status.ErrNotExists) {
+				return fmt.Errorf("delete index chunk in metadata [%s]: %w", chunk, err)
+			}
+		}
+
+		if token == "" {
+			return nil
+		}
+		next = token
 	}
 }
 
